@@ -44,13 +44,13 @@ def specStep (L : Lib F T) (σ : Spec F) : Req → Spec F × Resp F T
   | .delete id => (⟨σ.m.del id, σ.next⟩, ⟨.ok, .none⟩)
   | .contents id crlf =>
     match σ.m id with
-    | none => (σ, ⟨.ok, .none⟩)
+    | none => (σ, ⟨.error, .none⟩)
     | some f =>
       (⟨σ.m.upd id (L.create f).1, σ.next⟩,
-       if (L.create f).2.isSome then ⟨.ok, .none⟩ else
+       if (L.create f).2.isSome then ⟨.libErr, .none⟩ else
        match L.writeText (L.create f).1 crlf with
        | .ok t => ⟨.ok, .text t⟩
-       | .error _ => ⟨.ok, .none⟩)
+       | .error _ => ⟨.libErr, .none⟩)
   | .validate id opts =>
     (σ, match σ.m id with
         | none => ⟨.badRequest, .none⟩
